@@ -204,6 +204,48 @@ def _check(chk, W, label, op, metric=False, group="exprs", cvals=None):
     chk.obligation(f"{lab} | no constants: the operator itself", "discharged" if same is op and same2 is op else "refuted", backend="identity")
 
 
+def _check_sequential(chk, W, label, op, metric=False, group="exprs"):
+    """specialising in two steps (first one key, then another key of the result) must give what specialising once with both gives:
+    value, Jacobian and metric of the original at (variables u constants)"""
+    ift = W.ift
+    keys = tuple(sorted(op.domain.keys()))
+    box = W.box()
+    for k1, k2 in itertools.permutations(keys, 2):
+        var = tuple(k for k in keys if k not in (k1, k2))
+        if not var:
+            continue
+        lab = f"{group}: {label} | constants {k1}, then {k2}"
+        xvar, xfull = W.part(var), W.part(keys)
+        try:
+            with SX.concolic(W.shadow) as pc:
+                _, op1 = op.simplify_for_constant_input(W.part((k1,)))
+                _, op2 = op1.simplify_for_constant_input(W.part((k2,)))
+                pc = list(pc)
+        except NotImplementedError as e:
+            chk.note(f"{lab}: specialisation refused ({e})")
+            continue
+        vardom = ift.MultiDomain.make({k: op.domain[k] for k in var})
+        ok = op2.domain is vardom and op2.target is op.target
+        chk.obligation(f"{lab}: result lives on exactly the remaining keys and on the original target", "discharged" if ok else "refuted", backend="identity")
+        if not ok:
+            continue
+        with SX.concolic(W.shadow) as pc2:
+            v_orig = op(xfull)
+            lin_new = op2(ift.Linearization.make_var(xvar, want_metric=metric))
+            lin_orig = op(ift.Linearization.make_partial_var(xfull, [k1, k2], want_metric=metric))
+            t, tsyms = W.tangent(var)
+            tfull = t.unite(W.tangent((k1, k2), zero=(k1, k2))[0])
+            j_new, j_orig = lin_new.jac(t), lin_orig.jac(tfull)
+            if metric and lin_new.metric is not None:
+                m_new, m_orig = lin_new.metric(t), lin_orig.metric(tfull).extract_by_keys(var)
+            pc = pc + list(pc2)
+        all_equal(chk, f"{lab}: value == original with both constants inserted", flat(op2(xvar)), flat(v_orig), pc=pc, domain=box)
+        all_equal(chk, f"{lab}: value on a linearization == original with both constants inserted", flat(lin_new.val), flat(v_orig), pc=pc, domain=box)
+        all_equal(chk, f"{lab}: Jacobian == Jacobian of the original on make_partial_var", flat(j_new), flat(j_orig), pc=pc, domain=box)
+        if metric and lin_new.metric is not None:
+            all_equal(chk, f"{lab}: metric == variable part of the original metric", flat(m_new), flat(m_orig), pc=pc, domain=box)
+
+
 def sec_overrides(chk):
     """each override of the hook with generic children"""
     import nifty.cl as ift
@@ -290,6 +332,9 @@ def sec_energies(chk):
         _check(chk, W, "StandardHamiltonian(likelihood sum)", H, metric=True, group="energies")
         H0 = StandardHamiltonian(S)
         _check(chk, W, "StandardHamiltonian without iteration controller", H0, metric=True, group="energies")
+        for nm, o in (("likelihood sum: Poisson@(exp(a)*b) + Gaussian@c", S), ("StandardHamiltonian(likelihood sum)", H),
+                      ("StandardHamiltonian without iteration controller", H0), ("Gaussian @ (sin(a) + b*c)", E2)):
+            _check_sequential(chk, W, nm, o, metric=True, group="energies")
         Hd = StandardHamiltonian(S, ic_samp="IC", prior_sampling_dtype={"a": float, "b": float, "c": float})
         _check(chk, W, "StandardHamiltonian with per-key prior sampling dtypes", Hd, metric=True, group="energies")
         # variable covariance: residual r and inverse covariance i as separate keys
